@@ -22,14 +22,20 @@ def signature(c, o):
     p1, p2 = l1.find("--"), l2.find("--")
     if p1 > 0 and p2 > 0 and l1[:p1].strip() and l1[:p1].rstrip() == l2[:p2].rstrip() and l1[p1:] == l2[p2:]:
         return "C06/space/trailing-comment-gap/%s" % d.get("owner", "none")
+    path = d.get("path", [])
+    lambda_arg = any(a == "ClosureExpr" and b == "CallArgList" for a, b in zip(path, path[1:]))
     if squeeze(l1) == squeeze(l2):
         if l1.strip() == l2.strip():
+            if lambda_arg and not doc:
+                return "C06/indent/lambda-argument-body"    # body of a function argument, indented twice by pass 1
             return "C06/indent/%s" % ("doc" if doc else d["node"])
         return "C06/space/%s" % ((d["stat"] if d["stat"] != "none" else "doc") if doc else d["node"])
     # the same text is distributed over the lines differently: a line-breaking decision changed
     width = c["cfg"].get("layout", {}).get("max_line_width", 120)
     if "--" in l1 or "--" in l2:
         return "C06/reflow/next-to-comment"
+    if width > 40 and path[:1] == ["CallArgList"] and ("function" in l1 or "function" in l2):
+        return "C06/reflow/lambda-argument"         # argument list with a function argument: one per line, then hugged
     return "C06/reflow/%s" % ("narrow-width" if width <= 40 else "default-width")
 
 
